@@ -22,7 +22,7 @@ PROPS = {
                         'ill-formed UTF-8 in a topic is not in the property list: Go replaces it by U+FFFD (reported as a note in DESIGN.md, D16)'],
     },
     'C14': {
-        'engines': [('filter', 300, 3000), ('match', 600, 6000), ('matchsweep', 1, 1), ('mux', 200, 2000), ('muxseq', 200, 2000)],
+        'engines': [('filter', 300, 3000), ('match', 600, 6000), ('matchsweep', 1, 1), ('mux', 200, 2000), ('muxseq', 200, 2000), ('c20', 100, 1000)],
         'rule': 'all filter strings over {a,b,+,#,/} up to length 4 (6 thorough); all filter x topic pairs up to length 3 (4 thorough) against '
                 'the Lean model; exhaustive Go-side sweep of all pairs up to filter length 5 / topic length 4 (6/6 thorough) against the §4.7 '
                 'oracle; random long strings with multi-byte runes; non-trivial = valid filter',
@@ -145,7 +145,7 @@ PROPS = {
         'thorough_seeds': 2,
     },
     'C07': {
-        'engines': [('bc', 400, 4000)],
+        'engines': [('bc', 400, 4000), ('rhandle', 1, 1)],
         'rule': 'scripts over the base client LTS: API calls (Connect, Publish QoS 1/2, Subscribe, Unsubscribe, Ping, Disconnect) started at scripted points, acknowledgements in a scripted order (own, foreign, wrong-kind, unsolicited, SUBACK with right / wrong count), cancellation of any call, peer close, local Close, malformed packet, write refusal; the thorough tier enumerates every request kind x every step of its exchange x every cause, alone and with 1-4 other blocked calls; non-trivial = at least one call was made',
         'assumptions': ['registration of a waiter and the write of its request are one atomic step (no acknowledgement can precede the request)',
                         'goroutine scheduling and channel semantics of Go are not formalised: each blocking select is modelled by its three exits',
